@@ -7,7 +7,7 @@ import itertools
 from ..absval import Undecided, eval_expr, eval_resolved
 from ..core import (alpha, AnalysisError, call_name, dotted, is_const, kwarg, local_defs, norm, origin,
                     parent_map, walk_local)
-from ..facts import guards_of, returns_of, enclosing_loops, default_of
+from ..facts import conjunct_nodes, enclosing_loops, guards_of, returns_of, enclosing_loops, default_of
 from ..rules import matcher as M
 from ..rules.memo import memo_sites
 from ..pattern import pmatch, pfind
@@ -428,6 +428,10 @@ def use_filter(rep):
                         and any(isinstance(n_, ast.Assign) and norm(n_.targets[0]) == t.id and is_const(n_.value, True) for n_ in walk_local(blk)) \
                         and any(isinstance(n_, ast.Assign) and norm(n_.targets[0]) == t.id and is_const(n_.value, False) for n_ in walk_local(blk)):
                     kind, ok = "LABEL-AVAILABLE", True
+                elif isinstance(t, ast.Call) and call_name(t) == "any" and not sense and t.args and isinstance(t.args[0], ast.GeneratorExp) \
+                        and any("parent_graph.nodes" in norm(g_.iter) for g_ in t.args[0].generators):
+                    # "no parent node carries this child's labels": the availability test written with any()
+                    kind, ok = "LABEL-AVAILABLE", True
                 elif isinstance(t, ast.Compare) and ((isinstance(t.ops[0], ast.NotIn) and sense) or (isinstance(t.ops[0], ast.In) and not sense)):
                     src = origin(local_defs(fi.node), t.comparators[0])
                     kind = "LABEL-MULTISET"
@@ -480,18 +484,37 @@ def compiled_predicates(rep):
 def quick_pre_filter(rep):
     fi = rep.f(SM, "SubgraphSearchEngine._quick_pre_filter")
     defs = local_defs(fi.node, into_nested=True)
+    pm0 = parent_map(fi.node)
     sums = [c for c in walk_local(fi.node) if isinstance(c, ast.Call) and call_name(c) == "sum" and c.args
             and isinstance(c.args[0], ast.GeneratorExp)]
-    rep.need("FILTER", len(sums), 1, "candidate count in _quick_pre_filter")
-    gen = sums[0].args[0]
-    g = gen.generators[0]
-    it = norm(g.iter).replace(" ", "")
-    rep.ob("O7.4", "FILTER", fi, it == "host.nodes(data=True)", g.iter, "candidates are counted over all host nodes", node=sums[0])
-    host_data = norm(g.target.elts[1]) if isinstance(g.target, ast.Tuple) and len(g.target.elts) == 2 else "?"
-    host_id = norm(g.target.elts[0]) if isinstance(g.target, ast.Tuple) else "?"
-    conj = []
-    for i in g.ifs:
-        conj += i.values if isinstance(i, ast.BoolOp) and isinstance(i.op, ast.And) else [i]
+    cnt_site = None   # (target, iter, conjuncts, report node, counter name or None)
+    if sums:
+        g = sums[0].args[0].generators[0]
+        cj_ = []
+        for i in g.ifs:
+            cj_ += conjunct_nodes(i)
+        cnt_site = (g.target, g.iter, cj_, sums[0], None)
+    else:
+        # explicit loop:  c = 0;  for hid, hdata in host.nodes(data=True): if COND: c += 1
+        for inc in [n for n in walk_local(fi.node) if isinstance(n, ast.AugAssign) and isinstance(n.op, ast.Add) and is_const(n.value, 1) and isinstance(n.target, ast.Name)]:
+            ls = enclosing_loops(pm0, inc, fi.node)
+            if ls and pmatch("host.nodes(data=True)", ls[0].iter) is not None:
+                cj_ = []
+                okg = True
+                for t, s_ in guards_of(pm0, inc, ls[0]):
+                    if s_:
+                        cj_ += conjunct_nodes(t)
+                    else:
+                        okg = False
+                if okg:
+                    cnt_site = (ls[0].target, ls[0].iter, cj_, inc, inc.target.id)
+    rep.need("FILTER", 1 if cnt_site else 0, 1, "candidate count in _quick_pre_filter")
+    tgt_, iter_, conj, cnt_node, cnt_loop_name = cnt_site
+    sums = [cnt_node]
+    it = norm(iter_).replace(" ", "")
+    rep.ob("O7.4", "FILTER", fi, it == "host.nodes(data=True)", iter_, "candidates are counted over all host nodes", node=cnt_node)
+    host_data = norm(tgt_.elts[1]) if isinstance(tgt_, ast.Tuple) and len(tgt_.elts) == 2 else "?"
+    host_id = norm(tgt_.elts[0]) if isinstance(tgt_, ast.Tuple) else "?"
     # pattern side: loop variable over pattern.nodes(data=True)
     loops = [l for l in walk_local(fi.node) if isinstance(l, ast.For) and norm(l.iter).replace(" ", "") == "pattern.nodes(data=True)"]
     pat_data = norm(loops[0].target.elts[1]) if loops and isinstance(loops[0].target, ast.Tuple) else "?"
@@ -535,7 +558,7 @@ def quick_pre_filter(rep):
     for r in [n for n in walk_local(fi.node) if isinstance(n, ast.Return) and isinstance(n.value, ast.Constant) and n.value.value is True]:
         gts = [t for t, s_ in guards_of(pm, r, fi.node) if s_]
         gs = [norm(t).replace(" ", "") for t in gts]
-        cnt_name = None
+        cnt_name = cnt_loop_name
         for n_ in walk_local(fi.node):
             if isinstance(n_, ast.Assign) and n_.value is sums[0] and isinstance(n_.targets[0], ast.Name):
                 cnt_name = n_.targets[0].id
